@@ -22,9 +22,37 @@ import (
 
 var fset = token.NewFileSet()
 
+// extractError is what fail throws: a section of the tables that cannot be read off the current sources.
+type extractError string
+
 func fail(format string, a ...interface{}) {
-	fmt.Fprintf(os.Stderr, "extract: "+format+"\n", a...)
-	os.Exit(1)
+	panic(extractError(fmt.Sprintf(format, a...)))
+}
+
+var broken []string
+
+// section writes one group of definitions; if the shape of the code it reads is not recognised, the group is
+// replaced by placeholders of the same types (empty lists, false, 99, "unextractable") so that only the theorems
+// over this group stop checking, not the whole model.
+func section(b *bytes.Buffer, name string, placeholder string, body func(w func(string, ...interface{}))) {
+	var sb bytes.Buffer
+	w := func(format string, a ...interface{}) { fmt.Fprintf(&sb, format, a...) }
+	func() {
+		defer func() {
+			if r := recover(); r != nil {
+				e, ok := r.(extractError)
+				if !ok {
+					e = extractError(fmt.Sprint(r))
+				}
+				fmt.Fprintf(os.Stderr, "extract: %s: %s\n", name, string(e))
+				broken = append(broken, name+": "+string(e))
+				sb.Reset()
+				sb.WriteString("-- NOT EXTRACTED (" + strings.ReplaceAll(string(e), "\n", " ") + "): placeholders\n" + placeholder + "\n")
+			}
+		}()
+		body(w)
+	}()
+	b.Write(sb.Bytes())
 }
 
 func parse(path string) *ast.File {
@@ -120,6 +148,28 @@ func returnsOf(fd *ast.FuncDecl) []ret {
 				}
 				return true
 			})
+		case *ast.SwitchStmt:
+			if st.Tag != nil {
+				continue
+			}
+			for _, c := range st.Body.List {
+				cc := c.(*ast.CaseClause)
+				cond := ""
+				if len(cc.List) > 0 {
+					cond = text(cc.List[0])
+				}
+				for _, cs := range cc.Body {
+					ast.Inspect(cs, func(n ast.Node) bool {
+						if _, ok := n.(*ast.FuncLit); ok {
+							return false
+						}
+						if r, ok := n.(*ast.ReturnStmt); ok && len(r.Results) == 1 {
+							out = append(out, ret{cond, statusOf(text(r.Results[0]), consts)})
+						}
+						return true
+					})
+				}
+			}
 		case *ast.ReturnStmt:
 			out = append(out, ret{"", statusOf(text(st.Results[0]), consts)})
 		}
@@ -302,6 +352,40 @@ func caseTypes(cc *ast.CaseClause) []string {
 	return out
 }
 
+// findWhitelist: the function that holds the expression walk of wire.Value: processValue itself, or — after the walk
+// has been moved into a helper — the function of parse.go whose type switch has a case for *ast.BasicLit.
+func findWhitelist(f *ast.File) *ast.FuncDecl {
+	has := func(fd *ast.FuncDecl) bool {
+		found := false
+		if fd.Body == nil {
+			return false
+		}
+		ast.Inspect(fd.Body, func(n ast.Node) bool {
+			if s, ok := n.(*ast.TypeSwitchStmt); ok {
+				for _, c := range s.Body.List {
+					for _, e := range c.(*ast.CaseClause).List {
+						if text(e) == "*ast.BasicLit" {
+							found = true
+						}
+					}
+				}
+			}
+			return true
+		})
+		return found
+	}
+	if fd := findFunc(f, "", "processValue"); has(fd) {
+		return fd
+	}
+	for _, d := range f.Decls {
+		if fd, ok := d.(*ast.FuncDecl); ok && has(fd) {
+			return fd
+		}
+	}
+	fail("no function of parse.go walks a wire.Value expression with a type switch over go/ast node kinds")
+	return nil
+}
+
 func valueWhitelist(fd *ast.FuncDecl) (good []string, unaryArrowRejected bool, callRule string, defaultRejects bool) {
 	callRule = "none"
 	var sw *ast.TypeSwitchStmt
@@ -429,19 +513,40 @@ func zeroKinds(fd *ast.FuncDecl) (cases [][2]string, defaultPanics bool) {
 
 // callsOf: the names of the functions and methods a function's body calls (identifiers and the
 // selector's method name), sorted, without duplicates.
+// pkgFuncs: the functions and methods declared in the files of package internal/wire that the call facts follow
+// (so that moving a stage into a helper function does not hide it).
+var pkgFuncs = map[string][]*ast.FuncDecl{}
+
 func callsOf(fd *ast.FuncDecl) []string {
 	seen := map[string]bool{}
-	ast.Inspect(fd.Body, func(n ast.Node) bool {
-		if c, ok := n.(*ast.CallExpr); ok {
-			switch f := c.Fun.(type) {
-			case *ast.Ident:
-				seen[f.Name] = true
-			case *ast.SelectorExpr:
-				seen[f.Sel.Name] = true
-			}
+	visited := map[*ast.FuncDecl]bool{}
+	var walk func(fd *ast.FuncDecl)
+	walk = func(fd *ast.FuncDecl) {
+		if fd == nil || fd.Body == nil || visited[fd] {
+			return
 		}
-		return true
-	})
+		visited[fd] = true
+		ast.Inspect(fd.Body, func(n ast.Node) bool {
+			if c, ok := n.(*ast.CallExpr); ok {
+				name := ""
+				switch f := c.Fun.(type) {
+				case *ast.Ident:
+					name = f.Name
+				case *ast.SelectorExpr:
+					name = f.Sel.Name
+				}
+				if name != "" && len(pkgFuncs[name]) > 0 {
+					// only functions of the package itself are facts; library calls are not
+					seen[name] = true
+					for _, callee := range pkgFuncs[name] {
+						walk(callee)
+					}
+				}
+			}
+			return true
+		})
+	}
+	walk(fd)
 	var out []string
 	for k := range seen {
 		out = append(out, k)
@@ -508,95 +613,114 @@ func main() {
 	w("/-! GENERATED by /verif/extract from the current sources of %s — do not edit; rewritten on every run. -/\n", repo)
 	w("namespace WireV.Generated\n\n")
 
-	mainf := parse(repo + "/cmd/wire/main.go")
-	for _, c := range []string{"gen", "diff", "check", "show"} {
-		fd := findFunc(mainf, c+"Cmd", "Execute")
-		rs := returnsOf(fd)
+	section(&b, "command exit statuses", "def genReturns : List (String × Nat) := []\ndef diffReturns : List (String × Nat) := []\ndef checkReturns : List (String × Nat) := []\ndef showReturns : List (String × Nat) := []\ndef genHeaderStatus : Nat := 99\ndef diffHeaderStatus : Nat := 99\n", func(w func(string, ...interface{})) {
+		mainf := parse(repo + "/cmd/wire/main.go")
+		for _, c := range []string{"gen", "diff", "check", "show"} {
+			fd := findFunc(mainf, c+"Cmd", "Execute")
+			rs := returnsOf(fd)
+			var items []string
+			for _, r := range rs {
+				items = append(items, fmt.Sprintf("(%q, %d)", r.guard, r.status))
+			}
+			w("/-- returns of `%sCmd.Execute`: (guarding condition, exit status), in source order -/\n", c)
+			w("def %sReturns : List (String × Nat) := [%s]\n\n", c, strings.Join(items, ", "))
+		}
+		w("def genHeaderStatus : Nat := %d\n", headerStatus(findFunc(mainf, "genCmd", "Execute")))
+		w("def diffHeaderStatus : Nat := %d\n\n", headerStatus(findFunc(mainf, "diffCmd", "Execute")))
+	})
+	section(&b, "copyAST cases", "def copyCases : List (String × List String) := []\ndef copyDefaultPanics : Bool := false\ndef astNodes : List (String × List (String × String)) := []\n", func(w func(string, ...interface{})) {
+		cp := parse(repo + "/internal/wire/copyast.go")
+		copied, order, dp := copiedFields(findFunc(cp, "", "copyAST"))
+		w("/-- `copyAST`: node kinds with a case, and the fields each case copies -/\n")
 		var items []string
-		for _, r := range rs {
-			items = append(items, fmt.Sprintf("(%q, %d)", r.guard, r.status))
+		for _, k := range order {
+			items = append(items, fmt.Sprintf("(%q, %s)", k, lstr(copied[k])))
 		}
-		w("/-- returns of `%sCmd.Execute`: (guarding condition, exit status), in source order -/\n", c)
-		w("def %sReturns : List (String × Nat) := [%s]\n\n", c, strings.Join(items, ", "))
-	}
-	w("def genHeaderStatus : Nat := %d\n", headerStatus(findFunc(mainf, "genCmd", "Execute")))
-	w("def diffHeaderStatus : Nat := %d\n\n", headerStatus(findFunc(mainf, "diffCmd", "Execute")))
-
-	cp := parse(repo + "/internal/wire/copyast.go")
-	copied, order, dp := copiedFields(findFunc(cp, "", "copyAST"))
-	w("/-- `copyAST`: node kinds with a case, and the fields each case copies -/\n")
-	var items []string
-	for _, k := range order {
-		items = append(items, fmt.Sprintf("(%q, %s)", k, lstr(copied[k])))
-	}
-	w("def copyCases : List (String × List String) := [\n  %s]\n", strings.Join(items, ",\n  "))
-	w("def copyDefaultPanics : Bool := %v\n\n", dp)
-	w("/-- go/ast node structs of the toolchain: (kind, [(field, class)]) with class child | childlist | pos | value | ignore -/\n")
-	items = nil
-	for _, ni := range astInventory() {
-		var fs []string
-		for i := range ni.fields {
-			fs = append(fs, fmt.Sprintf("(%q, %q)", ni.fields[i], ni.kinds[i]))
+		w("def copyCases : List (String × List String) := [\n  %s]\n", strings.Join(items, ",\n  "))
+		w("def copyDefaultPanics : Bool := %v\n\n", dp)
+		w("/-- go/ast node structs of the toolchain: (kind, [(field, class)]) with class child | childlist | pos | value | ignore -/\n")
+		items = nil
+		for _, ni := range astInventory() {
+			var fs []string
+			for i := range ni.fields {
+				fs = append(fs, fmt.Sprintf("(%q, %q)", ni.fields[i], ni.kinds[i]))
+			}
+			items = append(items, fmt.Sprintf("(%q, [%s])", ni.name, strings.Join(fs, ", ")))
 		}
-		items = append(items, fmt.Sprintf("(%q, [%s])", ni.name, strings.Join(fs, ", ")))
-	}
-	w("def astNodes : List (String × List (String × String)) := [\n  %s]\n\n", strings.Join(items, ",\n  "))
+		w("def astNodes : List (String × List (String × String)) := [\n  %s]\n\n", strings.Join(items, ",\n  "))
 
+	})
 	pf := parse(repo + "/internal/wire/parse.go")
-	good, ua, cs, dr := valueWhitelist(findFunc(pf, "", "processValue"))
-	w("/-- `processValue`: node kinds accepted without further test -/\n")
-	w("def valueGood : List String := %s\n", lstr(good))
-	w("def valueUnaryArrowRejected : Bool := %v\n", ua)
-	w("/-- how the CallExpr case decides: \"isType\" | \"signature\" | \"none\" -/\n")
-	w("def valueCallRule : String := %q\n", cs)
-	w("def valueDefaultRejects : Bool := %v\n\n", dr)
+	section(&b, "processValue whitelist", "def valueGood : List String := []\ndef valueUnaryArrowRejected : Bool := false\ndef valueCallRule : String := \"unextractable\"\ndef valueDefaultRejects : Bool := false\n", func(w func(string, ...interface{})) {
+		good, ua, cs, dr := valueWhitelist(findWhitelist(pf))
+		w("/-- `processValue`: node kinds accepted without further test -/\n")
+		w("def valueGood : List String := %s\n", lstr(good))
+		w("def valueUnaryArrowRejected : Bool := %v\n", ua)
+		w("/-- how the CallExpr case decides: \"isType\" | \"signature\" | \"none\" -/\n")
+		w("def valueCallRule : String := %q\n", cs)
+		w("def valueDefaultRejects : Bool := %v\n\n", dr)
 
+	})
 	wf := parse(repo + "/internal/wire/wire.go")
-	zc, zp := zeroKinds(findFunc(wf, "", "zeroValue"))
-	items = nil
-	for _, c := range zc {
-		items = append(items, fmt.Sprintf("(%q, %q)", c[0], c[1]))
-	}
-	w("/-- `zeroValue`: underlying-type kinds and what is emitted for them -/\n")
-	w("def zeroCases : List (String × String) := [%s]\n", strings.Join(items, ", "))
-	w("def zeroDefaultPanics : Bool := %v\n", zp)
-	zf, zk := zeroBasic(findFunc(wf, "", "zeroValue"))
-	w("def zeroBasicFlags : List String := %s\n", lstr(zf))
-	w("def zeroBasicKinds : List String := %s\n", lstr(zk))
-	items = nil
-	flagNames := []struct {
-		f types.BasicInfo
-		n string
-	}{{types.IsBoolean, "IsBoolean"}, {types.IsInteger, "IsInteger"}, {types.IsUnsigned, "IsUnsigned"}, {types.IsFloat, "IsFloat"},
-		{types.IsComplex, "IsComplex"}, {types.IsString, "IsString"}, {types.IsUntyped, "IsUntyped"}}
-	kindNames := map[types.BasicKind]string{types.Bool: "Bool", types.Int: "Int", types.Int8: "Int8", types.Int16: "Int16", types.Int32: "Int32",
-		types.Int64: "Int64", types.Uint: "Uint", types.Uint8: "Uint8", types.Uint16: "Uint16", types.Uint32: "Uint32", types.Uint64: "Uint64",
-		types.Uintptr: "Uintptr", types.Float32: "Float32", types.Float64: "Float64", types.Complex64: "Complex64", types.Complex128: "Complex128",
-		types.String: "String", types.UnsafePointer: "UnsafePointer"}
-	for k := types.Bool; k <= types.UnsafePointer; k++ {
-		bt := types.Typ[k]
-		var fl []string
-		for _, fn := range flagNames {
-			if bt.Info()&fn.f != 0 {
-				fl = append(fl, fn.n)
+	section(&b, "zeroValue kinds", "def zeroCases : List (String × String) := []\ndef zeroDefaultPanics : Bool := false\ndef zeroBasicFlags : List String := []\ndef zeroBasicKinds : List String := []\ndef basicKinds : List (String × List String) := []\n", func(w func(string, ...interface{})) {
+		var items []string
+		zc, zp := zeroKinds(findFunc(wf, "", "zeroValue"))
+		items = nil
+		for _, c := range zc {
+			items = append(items, fmt.Sprintf("(%q, %q)", c[0], c[1]))
+		}
+		w("/-- `zeroValue`: underlying-type kinds and what is emitted for them -/\n")
+		w("def zeroCases : List (String × String) := [%s]\n", strings.Join(items, ", "))
+		w("def zeroDefaultPanics : Bool := %v\n", zp)
+		zf, zk := zeroBasic(findFunc(wf, "", "zeroValue"))
+		w("def zeroBasicFlags : List String := %s\n", lstr(zf))
+		w("def zeroBasicKinds : List String := %s\n", lstr(zk))
+		items = nil
+		flagNames := []struct {
+			f types.BasicInfo
+			n string
+		}{{types.IsBoolean, "IsBoolean"}, {types.IsInteger, "IsInteger"}, {types.IsUnsigned, "IsUnsigned"}, {types.IsFloat, "IsFloat"},
+			{types.IsComplex, "IsComplex"}, {types.IsString, "IsString"}, {types.IsUntyped, "IsUntyped"}}
+		kindNames := map[types.BasicKind]string{types.Bool: "Bool", types.Int: "Int", types.Int8: "Int8", types.Int16: "Int16", types.Int32: "Int32",
+			types.Int64: "Int64", types.Uint: "Uint", types.Uint8: "Uint8", types.Uint16: "Uint16", types.Uint32: "Uint32", types.Uint64: "Uint64",
+			types.Uintptr: "Uintptr", types.Float32: "Float32", types.Float64: "Float64", types.Complex64: "Complex64", types.Complex128: "Complex128",
+			types.String: "String", types.UnsafePointer: "UnsafePointer"}
+		for k := types.Bool; k <= types.UnsafePointer; k++ {
+			bt := types.Typ[k]
+			var fl []string
+			for _, fn := range flagNames {
+				if bt.Info()&fn.f != 0 {
+					fl = append(fl, fn.n)
+				}
+			}
+			items = append(items, fmt.Sprintf("(%q, %s)", kindNames[k], lstr(fl)))
+		}
+		w("/-- the typed basic kinds of go/types with their BasicInfo flags -/\n")
+		w("def basicKinds : List (String × List String) := [%s]\n\n", strings.Join(items, ", "))
+
+	})
+	for _, f := range []*ast.File{pf, wf, parse(repo + "/internal/wire/analyze.go")} {
+		for _, d := range f.Decls {
+			if fd, ok := d.(*ast.FuncDecl); ok {
+				pkgFuncs[fd.Name.Name] = append(pkgFuncs[fd.Name.Name], fd)
 			}
 		}
-		items = append(items, fmt.Sprintf("(%q, %s)", kindNames[k], lstr(fl)))
 	}
-	w("/-- the typed basic kinds of go/types with their BasicInfo flags -/\n")
-	w("def basicKinds : List (String × List String) := [%s]\n\n", strings.Join(items, ", "))
+	section(&b, "call facts", "def loadCalls : List String := []\ndef injectCalls : List String := []\ndef generateInjectorsCalls : List String := []\ndef processNewSetCalls : List String := []\n", func(w func(string, ...interface{})) {
+		w("/-- functions called by `Load` (wire check / show), by `gen.inject` and by `generateInjectors` (wire gen) -/\n")
+		w("def loadCalls : List String := %s\n", lstr(callsOf(findFunc(pf, "", "Load"))))
+		w("def injectCalls : List String := %s\n", lstr(callsOf(findFunc(wf, "gen", "inject"))))
+		w("def generateInjectorsCalls : List String := %s\n", lstr(callsOf(findFunc(wf, "", "generateInjectors"))))
+		w("def processNewSetCalls : List String := %s\n\n", lstr(callsOf(findFunc(pf, "objectCache", "processNewSet"))))
 
-	w("/-- functions called by `Load` (wire check / show), by `gen.inject` and by `generateInjectors` (wire gen) -/\n")
-	w("def loadCalls : List String := %s\n", lstr(callsOf(findFunc(pf, "", "Load"))))
-	w("def injectCalls : List String := %s\n", lstr(callsOf(findFunc(wf, "gen", "inject"))))
-	w("def generateInjectorsCalls : List String := %s\n", lstr(callsOf(findFunc(wf, "", "generateInjectors"))))
-	w("def processNewSetCalls : List String := %s\n\n", lstr(callsOf(findFunc(pf, "objectCache", "processNewSet"))))
+	})
+	section(&b, "unchecked assertions", "def uncheckedAssertsParse : List String := []\ndef uncheckedAssertsWire : List String := []\ndef uncheckedAssertsAnalyze : List String := []\n", func(w func(string, ...interface{})) {
+		w("/-- single-value type assertions (they panic on failure) in the front end and the generator, per function -/\n")
+		w("def uncheckedAssertsParse : List String := %s\n", lstr(uncheckedAsserts(pf)))
+		w("def uncheckedAssertsWire : List String := %s\n", lstr(uncheckedAsserts(wf)))
+		w("def uncheckedAssertsAnalyze : List String := %s\n\n", lstr(uncheckedAsserts(parse(repo+"/internal/wire/analyze.go"))))
 
-	w("/-- single-value type assertions (they panic on failure) in the front end and the generator, per function -/\n")
-	w("def uncheckedAssertsParse : List String := %s\n", lstr(uncheckedAsserts(pf)))
-	w("def uncheckedAssertsWire : List String := %s\n", lstr(uncheckedAsserts(wf)))
-	w("def uncheckedAssertsAnalyze : List String := %s\n\n", lstr(uncheckedAsserts(parse(repo+"/internal/wire/analyze.go"))))
-
+	})
 	var kws []string
 	for t := token.BREAK; t <= token.VAR; t++ {
 		if t.IsKeyword() {
@@ -608,6 +732,7 @@ func main() {
 	un := types.Universe.Names()
 	sort.Strings(un)
 	w("/-- names of the go/types universe scope -/\ndef universeNames : List String := %s\n\n", lstr(un))
+	w("/-- groups of definitions that could not be read off the sources in this run (placeholders above) -/\ndef brokenTables : List String := %s\n\n", lstr(broken))
 	w("end WireV.Generated\n")
 	old, _ := os.ReadFile(out)
 	if !bytes.Equal(old, b.Bytes()) {
